@@ -181,4 +181,54 @@ example : (((run (World.init (proto6 false)) (busy6 false)).bind fun w =>
     fairRoundsT (P := proto6 false) [] Alt.exact 4 (FairState.start w)).map fun s => s.w.settled) = some true := by
   decide +kernel
 
+/-- **simultaneous open never completes (0.6)**: in every reachable world in which both sides have
+sent a `Connect`, neither side is pending or online, and neither has been told `Ready` — each ignores
+the other's `Connect`.  So "the connecting side becomes ready" needs the hypothesis that exactly one
+side connects; it cannot hold from every reachable state. -/
+theorem simultaneous_open6 (tl : Bool) (sched : List (Move (proto6 tl))) (w : World (proto6 tl))
+    (hadm : admissible (World.init (proto6 tl)) sched = true) (hrun : run (World.init (proto6 tl)) sched = some w)
+    (ha : hasConnect w.a) (hb : hasConnect w.b) :
+    (∀ s : Side, stTok (w.get s).conn.state = none) ∧
+      Event.ready ∉ w.a.events ∧ Event.ready ∉ w.b.events := by
+  have hg := agree6_run sched _ w (agree6_init tl) hrun
+  have hsafe : Safe w := safe_of (run_inv (sim6 tl) sched _ w (init_inv (sim6 tl)) hadm hrun)
+    (run_hs (hs6 tl) sched _ w init_hs hrun)
+  have key : ∀ (e peer : End (proto6 tl)), G tl e peer → G tl peer e → hasConnect e → hasConnect peer →
+      stTok e.conn.state = none := by
+    intro e peer g1 g2 he hp
+    cases hst : e.conn.state with
+    | pending t => exact absurd he (g1.pnd t hst).1
+    | online t o =>
+      rcases g1.onl t o hst with ⟨h1, _, _⟩ | ⟨_, _, tp, h3, _⟩
+      · exact absurd he h1
+      · exact absurd h3 (g2.excl hp tp)
+    | unconnected => rfl
+    | connecting => rfl
+    | disconnected => rfl
+  refine ⟨fun s => ?_, ?_, ?_⟩
+  · cases s with
+    | a => exact key w.a w.b hg.1 hg.2 ha hb
+    | b => exact key w.b w.a hg.2 hg.1 hb ha
+  · intro hr
+    obtain ⟨dg, hdg, hacc⟩ := hsafe.ready_after_a hr
+    cases hpk : dg.pkt with
+    | control ack t c =>
+      cases c <;> simp [proto6, isAccept, hpk] at hacc
+      exact hg.2.excl hb t ⟨dg, hdg, by rw [hpk]; rfl⟩
+    | connless d => simp [proto6, isAccept, hpk] at hacc
+    | chunks ack t rr n cs => simp [proto6, isAccept, hpk] at hacc
+  · intro hr
+    obtain ⟨dg, hdg, hacc⟩ := hsafe.ready_after_b hr
+    cases hpk : dg.pkt with
+    | control ack t c =>
+      cases c <;> simp [proto6, isAccept, hpk] at hacc
+      exact hg.1.excl ha t ⟨dg, hdg, by rw [hpk]; rfl⟩
+    | connless d => simp [proto6, isAccept, hpk] at hacc
+    | chunks ack t rr n cs => simp [proto6, isAccept, hpk] at hacc
+
+/-- … and such worlds are reachable: both applications call `connect` -/
+example : ((run (World.init (proto6 false)) [.call .a [] .connect, .call .b [] .connect]).map fun w =>
+    (decide (w.a.conn.state = .connecting), decide (w.b.conn.state = .connecting))) = some (true, true) := by
+  decide +kernel
+
 end Tw.NetSim.P6
